@@ -18,19 +18,19 @@ Definition ex_prog (ci ct ca cb ce bl inner2 : nat) (nl1 : option (nat * nat)) (
      (BNext bl
        (LB ci (LLet 3 nl1 (LT (LApp (LA 4) (ACons inner2 (LA 5) ANil))))
         (LCons bl ci
-          (LExpr (LT (LIf ((6, []), [(1, (7, []))]) bl
+          (LExpr (LT (LIf ((6, []), [(1, (7, []))]) (TMulti bl
              (LB ct (LExpr (LOp (LA 8) (ACons inner2 (LA 3) ANil) (if inl then None else Some (bl, ci)) 0 (LT (LApp (LA 9) ANil)))) LNil)
-             (IElif bl ci ((10, []), []) 0
+             (IElif bl ci ((10, []), []) (TMulti 0
                 (LB ct (LExpr (LT (LMatch ((11, []), []) bl
                     (MCons ca (PCase 12 (Some 13)) (body (LB cb (LExpr (LT (LApp (LA 13) ANil))) LNil)) bl
                     (MLast ca PDef (BInline (LB (cb + 20) (LExpr (LOp (LA 14) ANil None 0
                           (LT (LApp (LA 15) (ACons inner2 (LLam [16] (body (LB (cb + 30) (LExpr (LT (LApp (LA 16) ANil))) LNil))
                                                                  (if inl then None else Some (1, 0))) ANil))))) LNil))))))) LNil)
-                (IElse 0 ce (BInline (LB (ce + 5) (LExpr (LT (LApp (LA 17) ANil))) LNil)))))))
-        (LCons 0 ci (LExpr (LT (LIf ((19, []), []) bl (LB ct (LExpr (LT (LIf1 ((20, []), []) ((21, [22]), []) None))) LNil) IEnd)))
+                (IElse 0 ce (BInline (LB (ce + 5) (LExpr (LT (LApp (LA 17) ANil))) LNil)))))))))
+        (LCons 0 ci (LExpr (LT (LIf ((19, []), []) (TMulti bl (LB ct (LExpr (LT (LIf ((20, []), []) (TOne ((21, [22]), []) R1End)))) LNil) IEnd))))
         (LCons bl ci (LLet 23 None (LT (LSMatch ((24, []), []) 0
              (SCons (if inl then ci else 0) 25 (body (LB cb (LExpr (LT (LApp (LS 26) ANil))) LNil)) bl
-             (SCons (ci + 1) 27 (BInline (LB (cb + 9) (LExpr (LT (LIf1 ((28, []), []) ((29, []), []) (Some ((30, []), [(2, (31, []))]))))) LNil)) 0
+             (SCons (ci + 1) 27 (BInline (LB (cb + 9) (LExpr (LT (LIf ((28, []), []) (TOne ((29, []), []) (R1Else ((30, []), [(2, (31, []))])))))) LNil)) 0
              (SLast ci (Some 32) (BNext 0 (LB cb (LExpr (LT (LApp (LA 33) ANil))) LNil))))))))
         (LCons 0 (ci + (if inl then 0 else 1)) (LExpr (LT (LApp (LA 18) ANil))) LNil)))))))].
 
@@ -44,8 +44,11 @@ Example two_layouts_one_tree :
   parse_blocks 400 (r_prog 99 ex_b) = Ok (er_prog ex_a).
 Proof. vm_compute. repeat split; try lia; try discriminate. Qed.
 
-(** finding (n): the one-line form with elif, and an inline then-body followed by else on the next
-    line, are rejected by the transcribed parser although the multi-line form of the same if is accepted *)
+(** finding (n), repaired in fc (isEndOfTerm knows elif; the one-line branch of parseIfAfterIfExpr also looks
+    for elif on the same line and for else/elif on a later line inside the offside line): the one-line forms
+    now give the tree of the multi-line form. (The transcription of the parser before the repair rejected
+    [if_one_line_elif], [if_inline_then_newline_else] and [if_inline_elif_newline_else]: see the comment
+    C06_elif_one_line_refuted_old in Props/C06.v.) *)
 Definition if_multi : list ptok :=    (* let f x = / if c then / a / elif d then / b / else / e *)
   [(TLET,0);(TA 1,4);(TA 2,6);(TEQ,8);(TEOL,9);
    (TIF,2);(TA 3,5);(TTHEN,7);(TEOL,11);(TA 4,4);(TEOL,5);
@@ -54,15 +57,44 @@ Definition if_multi : list ptok :=    (* let f x = / if c then / a / elif d then
 Definition if_one_line_elif : list ptok :=   (* let f x = / if c then a elif d then b else e *)
   [(TLET,0);(TA 1,4);(TA 2,6);(TEQ,8);(TEOL,9);
    (TIF,2);(TA 3,5);(TTHEN,7);(TA 4,12);(TELIF,14);(TA 5,19);(TTHEN,21);(TA 6,26);(TELSE,28);(TA 7,33);(TEOL,34)].
+Definition if_inline_elif_newline_else : list ptok :=   (* if c then / a / elif d then b / else / e *)
+  [(TLET,0);(TA 1,4);(TA 2,6);(TEQ,8);(TEOL,9);
+   (TIF,2);(TA 3,5);(TTHEN,7);(TEOL,11);(TA 4,4);(TEOL,5);
+   (TELIF,2);(TA 5,7);(TTHEN,9);(TA 6,14);(TEOL,15);
+   (TELSE,2);(TEOL,6);(TA 7,4);(TEOL,5)].
+Definition if2_multi : list ptok :=    (* let f x = / if c then / a / else / e *)
+  [(TLET,0);(TA 1,4);(TA 2,6);(TEQ,8);(TEOL,9);
+   (TIF,2);(TA 3,5);(TTHEN,7);(TEOL,11);(TA 4,4);(TEOL,5);(TELSE,2);(TEOL,6);(TA 7,4);(TEOL,5)].
 Definition if_inline_then_newline_else : list ptok :=   (* let f x = / if c then a / else e *)
   [(TLET,0);(TA 1,4);(TA 2,6);(TEQ,8);(TEOL,9);
    (TIF,2);(TA 3,5);(TTHEN,7);(TA 4,12);(TEOL,13);(TELSE,2);(TA 7,7);(TEOL,8)].
+Definition if_inline_then_else_left_of_block : list ptok :=   (* the same with else at column 1: outside the block *)
+  [(TLET,0);(TA 1,4);(TA 2,6);(TEQ,8);(TEOL,9);
+   (TIF,2);(TA 3,5);(TTHEN,7);(TA 4,12);(TEOL,13);(TELSE,1);(TA 7,7);(TEOL,8)].
 
-Example elif_one_line_refuted :
-  (exists t, parse_blocks 200 if_multi = Ok t) /\
-  parse_blocks 200 if_one_line_elif = Reject /\
-  parse_blocks 200 if_inline_then_newline_else = Reject.
-Proof. vm_compute. split; [eexists; reflexivity|split; reflexivity]. Qed.
+Example elif_one_line_accepted :
+  (exists t, parse_blocks 200 if_multi = Ok t /\ parse_blocks 200 if_one_line_elif = Ok t /\
+             parse_blocks 200 if_inline_elif_newline_else = Ok t) /\
+  (exists t, parse_blocks 200 if2_multi = Ok t /\ parse_blocks 200 if_inline_then_newline_else = Ok t) /\
+  parse_blocks 200 if_inline_then_else_left_of_block = Reject.
+Proof. vm_compute. split; [eexists; repeat split|split; [eexists; repeat split|reflexivity]]. Qed.
+
+(** the same if in three decorated layouts: multi-line; on one line; then-bodies on the if/elif lines with
+    elif and else on later lines *)
+Definition ex_if (tl : liftail) : lprog :=
+  [(0, 0, LLetFn 1 2 [] (BNext 0 (LB 2 (LExpr (LT (LIf ((3, []), []) tl))) LNil)))].
+Definition one (a : nat) : lblock := LB 4 (LExpr (LT (LApp (LA a) ANil))) LNil.
+Definition ex_if_multi := ex_if (TMulti 0 (one 4) (IElif 0 2 ((5, []), []) (TMulti 1 (one 6) (IElse 0 0 (BNext 0 (one 7)))))).
+Definition ex_if_one_line := ex_if (TOne ((4, []), []) (R1Elif ((5, []), []) (TOne ((6, []), []) (R1Else ((7, []), []))))).
+Definition ex_if_mixed := ex_if (TOne ((4, []), []) (R1NlElif 0 2 ((5, []), []) (TOne ((6, []), [])
+                                  (R1NlElse 1 3 (BInline (LB 9 (LExpr (LT (LApp (LA 7) ANil))) LNil)))))).
+Example if_three_layouts :
+  wf_prog None ex_if_multi /\ wf_prog None ex_if_one_line /\ wf_prog None ex_if_mixed /\
+  er_prog ex_if_multi = er_prog ex_if_one_line /\ er_prog ex_if_multi = er_prog ex_if_mixed /\
+  parse_blocks 200 (r_prog 0 ex_if_multi) = Ok (er_prog ex_if_multi) /\
+  parse_blocks 200 (r_prog 30 ex_if_one_line) = Ok (er_prog ex_if_multi) /\
+  parse_blocks 200 (r_prog 30 ex_if_mixed) = Ok (er_prog ex_if_multi).
+Proof. vm_compute. repeat split; try lia. Qed.
 
 (** a dedented statement changes the recovered structure (or is rejected) *)
 Definition ded_ok : list ptok :=      (* let f x = / if c then / a / b / else / e    (b inside then) *)
